@@ -77,4 +77,4 @@ def scratch():
 
 
 def rng_for(case):
-    return np.random.default_rng([int(case.get("seed", 0)) & 0x7FFFFFFF, int(case.get("_i", 0))])
+    return np.random.default_rng([int(case.get("seed", 0)) & 0x7FFFFFFF, int(case.get("_orig_i", case.get("_i", 0)))])
